@@ -298,7 +298,8 @@ impl Prop for C08Searches {
         let max_depth = tier.pick(3u8, 3u8);
         (
             prop_oneof![
-                7 => gen::endgame(5).prop_map(move |r| zero(gen::build(&r))),
+                5 => gen::endgame(5).prop_map(move |r| zero(gen::build(&r))),
+                2 => gen::pawn_race().prop_map(move |r| zero(gen::build(&r))),
                 1 => gen::cage_theme().prop_map(move |r| zero(gen::build(&r))),
                 1 => gen::placement(12).prop_map(move |r| zero(gen::build(&r))),
                 1 => gen::walk(50).prop_map(move |w| zero(gen::walk_end(&w))),
